@@ -480,7 +480,22 @@ func tryReplay(prop string, o *Obligation, u *Unit, vals map[string]string, repl
 		fmt.Fprintf(&body, "\nfunc %s(t *testing.T) {\n%s\n%s\n", testName, strings.Join(decls, "\n"), strings.Join(olds, "\n"))
 	}
 	if isSafety {
-		fmt.Fprintf(&body, "\tdefer func() {\n\t\tif r := recover(); r != nil {\n\t\t\tt.Fatalf(\"VIOLATION reproduced: %s: the real code panics: %%v\", r)\n\t\t}\n\t}()\n\t%s\n", o.Name, call)
+		// the panic must be of the kind the obligation is about (an index obligation is not reproduced
+		// by a nil dereference that the function's precondition excludes)
+		want := ""
+		switch {
+		case strings.Contains(o.Name, "safety.index"):
+			want = "index out of range"
+		case strings.Contains(o.Name, "safety.slice"):
+			want = "slice bounds out of range"
+		case strings.Contains(o.Name, "safety.nilmap"):
+			want = "nil map"
+		case strings.Contains(o.Name, "safety.nil"):
+			want = "nil pointer"
+		case strings.Contains(o.Name, "safety.div"):
+			want = "divide by zero"
+		}
+		fmt.Fprintf(&body, "\tdefer func() {\n\t\tif r := recover(); r != nil {\n\t\t\tmsg := \"\"\n\t\t\tif e, ok := r.(error); ok { msg = e.Error() } else if s2, ok := r.(string); ok { msg = s2 }\n\t\t\tif %q == \"\" || strings.Contains(msg, %q) {\n\t\t\t\tt.Fatalf(\"VIOLATION reproduced: %s: the real code panics: %%v\", r)\n\t\t\t}\n\t\t}\n\t}()\n\t%s\n", want, want, o.Name, call)
 		for _, l := range lhs {
 			fmt.Fprintf(&body, "\t_ = %s\n", l)
 		}
